@@ -10,10 +10,10 @@ def configs(tier):
         ('separator/keyword names 2occ x 2slots, sorted', dict(family='one_level', fam_kw=dict(occ=2, slots=2, attrs=0, text=False, leaf_form=False, p_form=True, names=COLL2), options=[{'preset': 'serde_xml_rs', 'sort': 'XmlName'}])),
         ('root level 2docs x 2slots', dict(family='root_level', fam_kw=dict(docs=2, slots=2, attrs=0, text=False, pool=2, leaf_form=False))),
         ('same PascalCase under different parents (names family, two parents)', dict(family='names', fam_kw=dict(shape='two_parents', names=('Foo', 'foo', 'x')))),
-        ('two recurring names with different multiplicities (names family, three branches)', dict(family='names', fam_kw=dict(shape='three_branches', names=('item', 'meta', 'x')))),
+        ('two recurring names with different multiplicities (names family, three branches)', dict(family='names', fam_kw=dict(shape='three_branches', names=('item', 'meta', 'x'), fix_n2='x'))),
         ('prefixed and unprefixed children/attributes with the same local name 2occ x 2slots', dict(family='one_level', fam_kw=dict(occ=2, slots=2, attrs=1, text=False, leaf_form=False, p_form=False, names=['link', 'atom:link'], anames=['id', 'x:id']))),
         ('prefixed and unprefixed attributes with the same local name 2occ x 2 attribute slots', dict(family='one_level', fam_kw=dict(occ=2, slots=0, attrs=2, text=False, leaf_form=False, p_form=False, anames=['id', 'x:id']))),
-        ('names whose PascalCase form changes when converted twice (a_b -> AB -> Ab) next to ab (names family, three branches)', dict(family='names', fam_kw=dict(shape='three_branches', names=('a_b', 'ab', 'x')))),
+        ('names whose PascalCase form changes when converted twice (a_b -> AB -> Ab) next to ab (names family, three branches)', dict(family='names', fam_kw=dict(shape='three_branches', names=('a_b', 'ab', 'x'), fix_n2='x'))),
         ('attributes + children collide 2occ', dict(family='one_level', fam_kw=dict(occ=2, slots=1, attrs=1, text=True, leaf_form=False, p_form=False, names=['a', 'foo'], anames=['a', 'foo']))),
     ]
     if tier == 'quick': return q
